@@ -108,6 +108,12 @@ def parse_template(text):
             f, rx, ex = [x.strip() for x in s[len("//@flagset "):].split("::")]
             out.append(("flagset", (f, rx, ex)))
             continue
+        if s.startswith("//@implconsts "):
+            if buf:
+                out.append(("text", "\n".join(buf)))
+                buf = []
+            out.append(("implconsts", s[len("//@implconsts "):].strip()))
+            continue
         if s.startswith("//@consts "):
             if buf:
                 out.append(("text", "\n".join(buf)))
@@ -257,6 +263,29 @@ def assemble(repo, template_text, canary_set=None):
                 gen = gen.replace("    ensures gen_flags_distinct_single_bits(),", "    ensures false, gen_flags_distinct_single_bits(),")
             chunks.append(gen)
             asm.generated = getattr(asm, "generated", []) + [{"flagset": names}]
+        elif kind == "implconsts":
+            # every `const` item of the addressed impl block, whatever their names (so a refactor that introduces
+            # a new associated const does not lose the unit)
+            src, lo, hi, item, k2 = rsx.resolve(repo, val)
+            if item is None or item.kind != "impl" or item.body_open is None:
+                raise rsx.ExtractError("implconsts: %s is not an impl block" % val)
+            n = 0
+            for it in rsx.parse_items(src.toks, item.body_open + 1, item.body_close):
+                if it.kind == "const" and it.name:
+                    rw = {}
+                    t = rsx.apply_token_rewrites(src.toks, it.tstart, it.tend, {"R1"}, rw).strip()
+                    if not t.startswith("pub"):
+                        # visibility only: Verus refuses a pub const that mentions a private one
+                        t = "pub " + t
+                        rsx._count(rw, "R1.private_const_made_pub")
+                    raw = src.text[src.toks[it.tstart].start:src.toks[it.tend - 1].end]
+                    chunks.append(t + "\n")
+                    for k_, v_ in rw.items():
+                        asm.rewrites[k_] = asm.rewrites.get(k_, 0) + v_
+                    asm.functions.append({"address": "%s :: const %s" % (val, it.name), "file": src.path,
+                                          "line": src.line_of(it.tstart), "sha256": rsx.hashlib.sha256(raw.encode()).hexdigest(),
+                                          "rewrites": rw, "fn_name": None, "contracted": False})
+                    n += 1
         elif kind == "consts":
             f, rx = val
             src = rsx._load(repo, f)
